@@ -29,9 +29,9 @@ var whoMayCall = map[string]struct {
 		"one batched call per (depth, service group) and one introspection call per service (C06, C12)"},
 	"github.com/buildbuildio/pebbles/queryer.Queryer.Subscribe": {[]string{"pebbles.(*Gateway).newSubscriptionEntry"},
 		"one upstream subscription per client subscription (C17)"},
-	"github.com/buildbuildio/pebbles/planner.Planner.Plan": {[]string{"pebbles.(*Gateway).queryHandler$1", "pebbles.(*Gateway).newSubscriptionEntry", "planner.(*CachedPlanner).Plan"},
+	"github.com/buildbuildio/pebbles/planner.Planner.Plan": {[]string{"@queryHandler.map", "pebbles.(*Gateway).newSubscriptionEntry", "planner.(*CachedPlanner).Plan"},
 		"planning happens once per operation, after validation; the caching planner delegates"},
-	"github.com/buildbuildio/pebbles/executor.Executor.Execute": {[]string{"pebbles.(*Gateway).queryHandler$1", "pebbles.(*Gateway).newSubscriptionEntry$1"},
+	"github.com/buildbuildio/pebbles/executor.Executor.Execute": {[]string{"@queryHandler.map", "@executorFn"},
 		"execution happens once per operation / per subscription event"},
 	"net/http.ResponseWriter.WriteHeader": {[]string{"pebbles.(Results).Emit", "pebbles.emitError"},
 		"status line is written by exactly two helpers (C07)"},
@@ -91,6 +91,12 @@ func ruleCallers(filter func(callee string) bool) ruleFn {
 			allowed := map[string]bool{}
 			var prefixes []string
 			for _, c := range spec.callers {
+				if strings.HasPrefix(c, "@") {
+					for _, f := range r.RoleFuncs(c[1:]) {
+						allowed[fnName(f)] = true
+					}
+					continue
+				}
 				allowed[c] = true
 				if strings.HasSuffix(c, "*") {
 					prefixes = append(prefixes, strings.TrimSuffix(c, "*"))
